@@ -483,4 +483,5 @@ def rule_memo18(repo, tier):
 def rules(repo, tier):
     from ..optional import rule_optional
     from ..mode import mode_rules
-    return [rule_idx(repo, tier), rule_sign(repo, tier), rule_fwd(repo, tier), rule_memo18(repo, tier), rule_self(repo, tier), rule_rankidx(repo, tier), rule_count(repo, tier), rule_optional(repo, 'C18.OPT', ['pypose.function.geometry'])] + mode_rules(repo, 'C18', ['pypose.function.geometry'])
+    from ..callsig import rule_callsig
+    return [rule_idx(repo, tier), rule_sign(repo, tier), rule_fwd(repo, tier), rule_memo18(repo, tier), rule_self(repo, tier), rule_rankidx(repo, tier), rule_count(repo, tier), rule_optional(repo, 'C18.OPT', ['pypose.function.geometry'])] + mode_rules(repo, 'C18', ['pypose.function.geometry']) + [rule_callsig(repo, 'C18.SIG', ['pypose.function.geometry'])]
